@@ -19,7 +19,7 @@ func init() {
 	register(&Property{
 		Meta: report.Meta{
 			Property:    "C14",
-			Explanation: "Structural rules on the selector tokenizer / parser and on the policy tuple codec: (R1) tokenize is a partition — every token appended is str[ofs:col] with ofs then set to col, and on every exit of the scanning loop either the pending tail str[ofs:col] is appended or the fact ofs >= col holds (no condition on the quote state may drop it); (R2) every iteration of Parse's loop over all tokens either appends exactly one segment whose printed form (str) is the whole token (or the constant \".\") or is a failure exit, so printing reproduces the accepted text; (R3) for each statement struct the tuple positions read by statementFromIPLD equal the positions written by statementToIPLD, and the arities (2 for not/and/or, 3 otherwise) agree. Deep equality of round-tripped policies and the meaning of re-parsed selectors are runtime-value clauses and are not decided. The data value of a decoded statement (field of type datamodel.Node) is exactly the node looked up in the tuple. Only HasSuffix / HasPrefix / TrimRight(tok, \"?\") / TrimSuffix are applied to a whole selector token; statementsFromIPLD stores exactly one decoded statement per list element. The field name of a field segment is built from sub-slices of the token (plus removal of '?' markers / the leading dot); statementToIPLD applies to a field only the conversion to string, Selector.String, the nested encoders or Kind(). Selector.String / segment.String only append the segments' parsed texts. Every non-failure return of selector.Parse passes through the loop over the tokens, except under equality of the whole input with a constant (the literal selectors); Parse fails only for the enumerated reasons. The counted loop of statementsFromIPLD starts at 0 and is bounded by Length() of the node parameter (or the function steps a ListIterator until Done). (R1) the latch paths of tokenize on which the offset restarts carry a fact on a loop phi other than list / offset / column, and no such atom occurs with both polarities. (R3) the argument of selector.Parse in statementFromIPLD is must.String(node) or AsString()#0.",
+			Explanation: "Structural rules on the selector tokenizer / parser and on the policy tuple codec: (R1) tokenize is a partition — every token appended is str[ofs:col] with ofs then set to col, and on every exit of the scanning loop either the pending tail str[ofs:col] is appended or the fact ofs >= col holds (no condition on the quote state may drop it); (R2) every iteration of Parse's loop over all tokens either appends exactly one segment whose printed form (str) is the whole token (or the constant \".\") or is a failure exit, so printing reproduces the accepted text; (R3) for each statement struct the tuple positions read by statementFromIPLD equal the positions written by statementToIPLD, and the arities (2 for not/and/or, 3 otherwise) agree. Deep equality of round-tripped policies and the meaning of re-parsed selectors are runtime-value clauses and are not decided. The data value of a decoded statement (field of type datamodel.Node) is exactly the node looked up in the tuple. Only HasSuffix / HasPrefix / TrimRight(tok, \"?\") / TrimSuffix are applied to a whole selector token; statementsFromIPLD stores exactly one decoded statement per list element. The field name of a field segment is built from sub-slices of the token (plus removal of '?' markers / the leading dot); statementToIPLD applies to a field only the conversion to string, Selector.String, the nested encoders or Kind(). Selector.String / segment.String only append the segments' parsed texts. Every non-failure return of selector.Parse passes through the loop over the tokens, except under equality of the whole input with a constant (the literal selectors); Parse fails only for the enumerated reasons. The counted loop of statementsFromIPLD starts at 0 and is bounded by Length() of the node parameter (or the function steps a ListIterator until Done). (R1) the latch paths of tokenize on which the offset restarts carry a fact on a loop phi other than list / offset / column, and no such atom occurs with both polarities. (R3) the argument of selector.Parse in statementFromIPLD is must.String(node) or AsString()#0. (R3) statementsToIPLD: one AssignNode in the loop, dominating every back edge, the loop left only through its header or a failing exit, the node assigned is result #0 of a module function applied in this iteration.",
 			Assumptions: []string{"go-ipld-prime list assembler appends values in call order"},
 			Trusted:     []string{"golang.org/x/tools/go/ssa v0.29.0", "go-ipld-prime"},
 			NotDecided:  []string{"deep equality of round-tripped policies", "equivalence of meaning of printed and re-parsed selectors"},
@@ -596,6 +596,14 @@ func tupleAgreement(x *Ctx) {
 			}
 			if ct.Op == "invoke" && strings.Contains(ct.Name, "NodeAssembler.Assign") && len(ct.Args) == 2 && strings.Contains(ct.Args[0].String(), "ListAssembler.AssembleValue") {
 				fld := fieldOfValue(ct.Args[1], typ)
+				if fld == "?" && ct.Args[1].Op == "const" {
+					// the kind written as the constant the type's Kind() method answers
+					if km := x.P.Func("(" + typ + ").Kind"); km != nil {
+						if kp := x.pathsQuiet(km); len(kp) == 1 && kp[0].End == paths.EndReturn && len(kp[0].Results()) == 1 && kp[0].Results()[0].String() == ct.Args[1].String() {
+							fld = "<kind>"
+						}
+					}
+				}
 				t.pos[fld] = k
 				k++
 				// what is written is the field in its one wire rendering: the node itself, the text of a pattern (a
